@@ -137,6 +137,7 @@ func init() {
 			})
 		},
 		Replay: func(r *eng.Run, raw json.RawMessage) *eng.Fail {
+			resetSpaces() // fresh, uncorrupted trees
 			var ref treeRef
 			if err := json.Unmarshal(raw, &ref); err != nil {
 				panic(err)
